@@ -486,6 +486,9 @@ func (g *FuncGen) trBinary(env *Env, x *EBinary) Val {
 			g.unsup("cannot type operands of %s in %s", x.Op, x)
 		}
 	}
+	if folded, ok := foldLiteralCmp(op, a.T, b.T, g.isSigned(gt)); ok {
+		return Val{T: folded, S: SBool, GT: boolT}
+	}
 	saved := g.contract
 	r := g.binopSpec(op, a, b, gt)
 	g.contract = saved
@@ -495,6 +498,58 @@ func (g *FuncGen) trBinary(env *Env, x *EBinary) Val {
 		r.GT = gt
 	}
 	return r
+}
+
+// foldLiteralCmp evaluates a comparison of two bitvector literals (keeps expanded quantifier instances small).
+func foldLiteralCmp(op token.Token, a, b string, signed bool) (string, bool) {
+	switch op {
+	case token.LSS, token.LEQ, token.GTR, token.GEQ:
+	default:
+		return "", false
+	}
+	parse := func(s string) (*big.Int, int, bool) {
+		if !strings.HasPrefix(s, "(_ bv") {
+			return nil, 0, false
+		}
+		var v string
+		var w int
+		if _, err := fmt.Sscanf(s, "(_ bv%s %d)", &v, &w); err != nil {
+			return nil, 0, false
+		}
+		n, ok := new(big.Int).SetString(v, 10)
+		return n, w, ok
+	}
+	x, wx, ok1 := parse(a)
+	y, wy, ok2 := parse(b)
+	if !ok1 || !ok2 || wx != wy {
+		return "", false
+	}
+	if signed {
+		half := new(big.Int).Lsh(big.NewInt(1), uint(wx-1))
+		full := new(big.Int).Lsh(big.NewInt(1), uint(wx))
+		if x.Cmp(half) >= 0 {
+			x = new(big.Int).Sub(x, full)
+		}
+		if y.Cmp(half) >= 0 {
+			y = new(big.Int).Sub(y, full)
+		}
+	}
+	c := x.Cmp(y)
+	var r bool
+	switch op {
+	case token.LSS:
+		r = c < 0
+	case token.LEQ:
+		r = c <= 0
+	case token.GTR:
+		r = c > 0
+	case token.GEQ:
+		r = c >= 0
+	}
+	if r {
+		return "true", true
+	}
+	return "false", true
 }
 
 // binopSpec: like binop but never emits safety obligations and never checks overflow (spec arithmetic wraps in bv mode, is exact in math mode).
